@@ -17,6 +17,7 @@ MATCH_STUBS = {
     'dbus_message_iter_get_arg_type': 'verif_stub_iter_get_arg_type',
     'dbus_message_iter_get_basic': 'verif_stub_iter_get_basic',
     'dbus_message_iter_next': 'verif_stub_iter_next',
+    'strlen': 'verif_strlen', 'strcmp': 'verif_strcmp', 'strncmp': 'verif_strncmp', 'memcmp': 'verif_memcmp',
 }
 MATCH_FUNCS = [
     dict(name='match_rule_matches', file=SIG, status='enforced',
@@ -27,7 +28,7 @@ MATCH_FUNCS = [
          note='contract: sequential iterator over an arbitrary argument list; INVALID at and after the end; string / object-path arguments are NUL-terminated, preceded by their 4-byte length word (wire format), <= 8 bytes'),
     dict(name='connection_is_primary_owner', file=SIG, status='stub',
          note='contract: name-registry fact; may only be asked about (sender, rule.sender) or (addressed recipient, rule.destination)'),
-    dict(name='strlen/strcmp/strncmp/memcmp', file='libc', status='inlined', note='CBMC library models; their loops are unwound to the 8-byte string bound'),
+    dict(name='strlen/strcmp/strncmp/memcmp', file='libc', status='stub', note='loop-free models (harness/c07_common.h) reading exactly the bytes the real functions read, for strings up to 24 bytes (asserted)'),
 ]
 MATCH_ASSUME = [
     'RULE_OK (precondition): flags within the 9 BusMatchFlags bits; not both PATH and PATH_NAMESPACE; MESSAGE_TYPE => message_type != INVALID; '
@@ -47,3 +48,111 @@ for variant, defs in (('match', []), ('match.nonempty', ['VERIF_ASSUME_NONEMPTY_
         bounds={'string_bytes': 8, 'args_len': 'any value the parser can build (1..64); the loop over it is closed by a loop contract, not unwound'},
         functions=MATCH_FUNCS,
         assumptions=MATCH_ASSUME + (['argNpath value is not empty (TEMPORARY: the parser accepts the empty value; C07.match is the unit without this assumption)'] if defs else [])))
+
+# ------------------------------------------------------------------------------------------------------------
+# 2. the setters: establish RULE_OK, atomic under allocation failure (serves C14)
+MEM = 'stubs/c07_mem.c'
+SETTER_TUS = [dict(file=SIG, include_as='VERIF_TU'), dict(file='dbus/dbus-internals.c'), dict(file='dbus/dbus-string.c')]
+MEM_FUNCS = [dict(name='dbus_malloc/dbus_malloc0/dbus_realloc/dbus_free', file='dbus/dbus-memory.c', status='stub',
+                  note='CBMC allocator; --malloc-may-fail --malloc-fail-null: every allocation may fail independently; size 0 => NULL as in dbus-memory.c'),
+             dict(name='_dbus_strdup, _dbus_string_copy_data, _dbus_string_init_const_len, _dbus_string_get_length', file='dbus/dbus-internals.c, dbus/dbus-string.c', status='inlined', note='real code')]
+UNITS.append(dict(
+    name='C07.setters', props=['C07', 'C14'], kind='P', route='plain', bus=True, tus=SETTER_TUS, harness='harness/c07_setters.c', extra_sources=[MEM],
+    unwind=12, cbmc_flags=['--malloc-may-fail', '--malloc-fail-null'], timeout=600, expect_s=30,
+    must_have=['post1 FALSE => rule unchanged', 'post3 TRUE'],
+    bounds={'string_bytes': 8, 'note': 'the setters are loop-free; only strlen inside the real _dbus_strdup is unwound (strings <= 8 bytes)'},
+    functions=[dict(name='bus_match_rule_set_interface/_member/_sender/_destination/_path/_message_type/_client_is_eavesdropping', file=SIG, status='enforced',
+                    contract='TRUE => flag set, field is a fresh exact-size NUL-terminated copy, everything else unchanged; FALSE => rule unchanged, nothing freed')] + MEM_FUNCS,
+    assumptions=['before the call each string field of the rule is NULL or a heap block (what the setters themselves produce)']))
+for n0, arg in ((0, 0), (0, 3), (2, 1), (2, 3)):
+    UNITS.append(dict(
+        name='C07.set_arg.n%da%d' % (n0, arg), props=['C07', 'C14'], kind='B', route='plain', bus=True, tus=SETTER_TUS, harness='harness/c07_setters.c', extra_sources=[MEM],
+        defines=['VERIF_SET_ARG', 'C07_MAXA=4', 'C07_N0=%d' % n0, 'C07_ARG=%d' % arg], unwind=12, cbmc_flags=['--malloc-may-fail', '--malloc-fail-null'], timeout=600, expect_s=10,
+        must_have=['post4 TRUE', 'post9 FALSE'],
+        bounds={'args_len_before': n0, 'arg_index': arg, 'string_bytes': 8,
+                'note': 'concrete array sizes (symbolic realloc sizes run the SAT back end out of memory); the four instances cover first use, growth from empty, replacement without growth, growth of a non-empty array'},
+        functions=[dict(name='bus_match_rule_set_arg', file=SIG, status='bounded',
+                        contract='TRUE => RULE_OK for the arrays (args_len = max(old, arg+1), terminator, args[arg] fresh exact-size copy, lens = length|flags, other slots unchanged / NULL); FALSE => argument matches unchanged, flags unchanged, arrays still terminated, nothing freed')] + MEM_FUNCS,
+        assumptions=['before the call the rule satisfies RULE_OK (ARGS flag iff args_len > 0; arrays of args_len+1 slots; terminator)']))
+
+# ------------------------------------------------------------------------------------------------------------
+# 3. tokenizer: find_key, find_value, tokenize_rule (P, hybrid: loop contracts + DBusString / DBusError contract stubs)
+TOK_STUBS = {
+    'dbus_error_is_set': 'verif_stub_error_is_set', 'dbus_set_error_const': 'verif_stub_set_error_const',
+    '_dbus_string_get_const_data': 'verif_stub_get_const_data', '_dbus_string_get_length': 'verif_stub_get_length',
+    '_dbus_string_append_len': 'verif_stub_append_len', '_dbus_string_append_byte': 'verif_stub_append_byte',
+    '_dbus_string_set_length': 'verif_stub_set_length',
+}
+TOK3_STUBS = dict(TOK_STUBS, **{'_dbus_string_init': 'verif_stub_string_init', '_dbus_string_free': 'verif_stub_string_free',
+                                '_dbus_string_steal_data': 'verif_stub_steal_data', 'dbus_free': 'verif_stub_dbus_free',
+                                'find_key': 'verif_stub_find_key', 'find_value': 'verif_stub_find_value'})
+STR_STUB_FUNCS = [
+    dict(name='_dbus_string_get_const_data/_get_length', file='dbus/dbus-string.c', status='stub', note='contract: ghost view of the rule text: verif_len bytes + NUL in an exact-size block (DBusString representation invariant)'),
+    dict(name='_dbus_string_append_len/_append_byte/_set_length', file='dbus/dbus-string.c', status='stub', note='contract: may fail (OOM) without effect; source range must lie inside the rule text; ghost length bookkeeping (C14 units cover the real functions)'),
+    dict(name='dbus_set_error (variadic, macro-remapped to fixed arity; message text dropped), dbus_set_error_const, dbus_error_is_set', file='dbus/dbus-errors.c', status='stub', note='contract: error must be clear before it is set; set <=> name != NULL'),
+]
+TOK_ASSUME = ['the rule text is a DBusString satisfying its representation invariant: len >= 0 bytes (any content, any length up to the DBusString maximum) followed by a NUL',
+              'error points to a clear DBusError (callers: bus_match_rule_parse)']
+for fn_no, fn, must, extra_assume in (
+        (1, 'find_key', ['post2', 'post4', 'Check invariant after step for loop find_key.0', 'Check invariant after step for loop find_key.2'], ['the key work string is empty at the call (tokenize_rule steals it after every token)']),
+        (2, 'find_value', ['post2', 'post5', 'Check invariant after step for loop find_value.0'], [])):
+    UNITS.append(dict(
+        name='C07.' + fn, props=['C07', 'C10'], kind='P', route='hybrid', bus=True,
+        tus=[dict(file=SIG, overlay='c07_signals.ovl', include_as='VERIF_TU')], harness='harness/c07_token.c', defines=['VERIF_FN=%d' % fn_no],
+        replace_calls=TOK_STUBS, allow_skip_msg=True, timeout=600, expect_s=20, must_have=must,
+        functions=[dict(name=fn, file=SIG, status='enforced', contract='memory safety for every rule text; cursor result inside the text; FALSE <=> error set; outputs untouched / restored on failure')] + STR_STUB_FUNCS,
+        assumptions=TOK_ASSUME + extra_assume))
+for variant, defs in (('tokenize', ['VERIF_POST_CONSUMED']), ('tokenize.safety', [])):
+    UNITS.append(dict(
+        name='C07.' + variant, props=['C07', 'C10'], kind='P', route='hybrid', bus=True,
+        tus=[dict(file=SIG, overlay='c07_signals.ovl', include_as='VERIF_TU')], harness='harness/c07_token.c', defines=['VERIF_FN=3'] + defs,
+        replace_calls=TOK3_STUBS, allow_skip_msg=True, unwindset=['harness.0:19'], timeout=600, expect_s=20,
+        must_have=['post2 the sentinel', 'post4', 'Check invariant after step for loop tokenize_rule.0', 'Check invariant after step for loop tokenize_rule.1'],
+        functions=[dict(name='tokenize_rule', file=SIG, status='enforced',
+                        contract='memory safety; <= MAX_RULE_TOKENS tokens; sentinel slot never written; FALSE <=> error set and every slot NULL again; work strings freed'
+                                 + ('; TRUE => whole rule text tokenized' if defs else '')),
+                   dict(name='find_key/find_value', file=SIG, status='replaced', note='contracts enforced by units C07.find_key / C07.find_value'),
+                   dict(name='_dbus_string_init/_free/_steal_data, dbus_free', file='dbus/dbus-string.c', status='stub', note='contract: init may fail; steal_data returns a fresh non-NULL block or fails without effect; dbus_free takes NULL or such a block')] + STR_STUB_FUNCS,
+        assumptions=TOK_ASSUME + ['all MAX_RULE_TOKENS+1 token slots are NULL at the call (memset in bus_match_rule_parse)']))
+
+# ------------------------------------------------------------------------------------------------------------
+# 4. bus_match_rule_parse (hybrid) / bus_match_rule_parse_arg_match (P-stub): typestate contracts
+ERR_STUBS = {'dbus_error_is_set': 'verif_stub_error_is_set', 'dbus_set_error_const': 'verif_stub_set_error_const'}
+PARSE_STUBS = dict(ERR_STUBS, **{
+    '_dbus_string_get_length': 'verif_stub_get_length', 'bus_match_rule_new': 'verif_stub_rule_new', 'bus_match_rule_unref': 'verif_stub_rule_unref',
+    'tokenize_rule': 'verif_stub_tokenize', '_dbus_string_init_const': 'verif_stub_init_const', 'dbus_message_type_from_string': 'verif_stub_type_from_string',
+    '_dbus_validate_bus_name': 'verif_stub_validate_bus_name', '_dbus_validate_interface': 'verif_stub_validate_interface',
+    '_dbus_validate_member': 'verif_stub_validate_member', '_dbus_validate_path': 'verif_stub_validate_path',
+    'bus_match_rule_set_sender': 'verif_stub_set_sender', 'bus_match_rule_set_interface': 'verif_stub_set_interface', 'bus_match_rule_set_member': 'verif_stub_set_member',
+    'bus_match_rule_set_destination': 'verif_stub_set_destination', 'bus_match_rule_set_path': 'verif_stub_set_path',
+    'bus_match_rule_set_message_type': 'verif_stub_set_message_type', 'bus_match_rule_set_client_is_eavesdropping': 'verif_stub_set_eavesdropping',
+    'bus_match_rule_parse_arg_match': 'verif_stub_parse_arg_match', 'dbus_free': 'verif_stub_dbus_free',
+    'strcmp': 'verif_strcmp', 'strncmp': 'verif_strncmp'})
+UNITS.append(dict(
+    name='C07.parse', props=['C07', 'C13'], kind='P', route='hybrid', bus=True,
+    tus=[dict(file=SIG, overlay='c07_signals.ovl', include_as='VERIF_TU')], harness='harness/c07_parse.c', defines=['VERIF_FN=1'],
+    replace_calls=PARSE_STUBS, allow_skip_msg=True, unwindset=['verif_stub_tokenize.0:18'], timeout=600, expect_s=30,
+    must_have=['post2', 'post3', 'the validator the specification names', 'the key was not given before', 'Check invariant after step for loop bus_match_rule_parse.0'],
+    functions=[dict(name='bus_match_rule_parse', file=SIG, status='enforced',
+                    contract='> 1024 bytes => LimitsExceeded first; every token handled by exactly one setter whose precondition is "validated by the validator the key table names, key not given before"; unknown key / bad value / duplicate => MatchRuleInvalid; NULL <=> error set; rule released once on failure; token strings freed once'),
+               dict(name='tokenize_rule', file=SIG, status='replaced', note='contract enforced by C07.tokenize.safety: <= MAX_RULE_TOKENS (key, value) pairs or FALSE with error; keys drawn from a literal pool covering every table key, arg keys, unknown keys'),
+               dict(name='bus_match_rule_set_*', file=SIG, status='replaced', note='contracts enforced by C07.setters (functional part); here they carry the typestate preconditions'),
+               dict(name='bus_match_rule_parse_arg_match', file=SIG, status='replaced', note='contract enforced by C07.parse_arg'),
+               dict(name='_dbus_validate_bus_name/_interface/_member/_path', file='dbus/dbus-marshal-validate.c', status='replaced', note='exact grammars: units C16.*; here: arbitrary verdict, recorded'),
+               dict(name='dbus_message_type_from_string, _dbus_string_init_const/_get_length, bus_match_rule_new/_unref, dbus_free, dbus_set_error*', file='dbus/*.c', status='stub', note='typestate contracts (see harness)'),
+               dict(name='strcmp/strncmp', file='libc', status='stub', note='loop-free models on the literal key pool')],
+    assumptions=['error points to a clear DBusError; the rule text is a valid DBusString of any length']))
+PARG_STUBS = dict(ERR_STUBS, **{'_dbus_string_parse_uint': 'verif_stub_parse_uint', 'bus_match_rule_set_arg': 'verif_stub_set_arg',
+                                '_dbus_validate_bus_namespace': 'verif_stub_validate_bus_namespace'})
+UNITS.append(dict(
+    name='C07.parse_arg', props=['C07'], kind='P', route='stub', bus=True,
+    tus=[dict(file=SIG, include_as='VERIF_TU'), dict(file='dbus/dbus-string.c'), dict(file='dbus/dbus-string-util.c')], harness='harness/c07_parse.c', defines=['VERIF_FN=2'],
+    extra_sources=[MEM], replace_calls=PARG_STUBS, unwind=20, timeout=600, expect_s=20,
+    must_have=['post2', 'post3', 'post4'],
+    bounds={'keys': '14 literal keys covering arg, argN, argNpath, arg0namespace, N in {0,7,12,63,64}, malformed suffixes'},
+    functions=[dict(name='bus_match_rule_parse_arg_match', file=SIG, status='enforced', contract='accepts exactly argN / argNpath / arg0namespace with N <= 63 (oracle ref_key); one set_arg with that index and kind; occupied index refused; FALSE <=> error set; MatchRuleInvalid / NoMemory'),
+               dict(name='_dbus_string_parse_uint', file='dbus/dbus-sysdeps.c', status='stub', note='contract for decimal digits without sign or leading zero (strtoul is outside; see findings: base-0 parsing accepts arg063 / arg+1 / arg0x1)'),
+               dict(name='bus_match_rule_set_arg', file=SIG, status='replaced', note='C07.set_arg.*'),
+               dict(name='_dbus_validate_bus_namespace', file='dbus/dbus-marshal-validate.c', status='replaced', note='C16.bus_namespace'),
+               dict(name='_dbus_string_init_const/_get_length/_equal_c_str/_ends_with_c_str', file='dbus/dbus-string.c, dbus-string-util.c', status='inlined', note='real code on the literal keys')],
+    assumptions=['keys are drawn from a pool of 14 literals; the argument number is written in decimal without sign or leading zero']))
